@@ -503,6 +503,24 @@ func main() {
 			}
 		}
 	}
+	// part 2b': messages of (about) 255, 256, 257 and 512 packets: packet counters that wrap
+	for _, P := range []int{256, 512} {
+		body := P - 8
+		for _, k := range []int{255, 256, 257, 512} {
+			idx++
+			if !h.Mine(idx) {
+				continue
+			}
+			for d := -1; d <= 1; d++ {
+				for _, chn := range []int{0, 1} {
+					m1 := Msg{Lens: []int{k*body + d}, Kinds: []int{0}, UseSend: d == 0, Type: 15}
+					m2 := Msg{Lens: []int{body}, Kinds: []int{0}, UseSend: true, Type: 1}
+					run(Case{Size1: P, M1: m1, Size2: P, M2: &m2, Chan: chn})
+					h.Section("many-packet-messages", 1)
+				}
+			}
+		}
+	}
 	// part 2c: caller-defined packages that stream through one reused buffer (kinds 4, 5)
 	for _, P := range []int{256, 512, 513, 2048, 4096} {
 		body := P - 8
